@@ -17,6 +17,11 @@ claimed["C15"] = ("contract-based deductive verification: weakest-precondition V
   "Trusted: go/ssa, yqv, spec library; assumed contracts for strconv.ParseInt/ParseFloat, time.Parse, strings.Compare/EqualFold, sort.Stable; floats as reals (no NaN); custom tags and non-default datetime layouts outside the lemma domain. Known findings carve out int/float beyond 2^53 and number/string mixes.",
   "DESIGN.md §5 C15")
 
+claimed["C17"] = ("contract-based deductive verification: loop invariant over a POSIX shell-lexing spec function (snoc-recursive), discharged by z3/cvc5; regexp character class discharged by exhaustive execution",
+  "shEncoder.encode is proved for every input string to produce one shell word that the POSIX tokenisation spec (unquoted / single-quoted / backslash states) maps back to exactly the input, with no character special to the shell outside quotes; the regexp-based shouldQuote is checked by executing it on all 1,114,112 code points; the NAME character classes of -o=shell are proved exact.",
+  "Trusted: the shell-lexing spec function stands for a real /bin/sh; strings.Builder model; valid UTF-8 input; NUL excluded. Not yet under contract: quoteValue's quoted branch (strings.ReplaceAll) and appendPath (NFKD).",
+  "DESIGN.md §5 C17")
+
 not_yet = {}
 
 def main():
